@@ -5,8 +5,19 @@ package main
 
 import (
 	"fmt"
+	"go/token"
+	"go/types"
 	"math/big"
 	"strings"
+)
+
+var typesInt = types.Typ[types.Int]
+
+const (
+	tokLEQ = token.LEQ
+	tokLSS = token.LSS
+	tokADD = token.ADD
+	tokSUB = token.SUB
 )
 
 type SortKind int
@@ -434,4 +445,86 @@ func symbols(t *Term, out map[string]bool) {
 	for _, p := range t.Pats {
 		symbols(p, out)
 	}
+}
+
+// ---------------------------------------------------------------- select with look-through
+
+type rowCopyDef struct{ dst, dpos, src, spos, n *Term }
+
+// sel is mkSelect that looks through let-definitions, stores, ite-merges and bulk-copy rows,
+// so that reads of freshly written memory become syntactically the written value.
+func (c *VC) sel(arr, i *Term) *Term { return c.selDepth(arr, i, 0) }
+
+func (c *VC) selDepth(arr, i *Term, depth int) *Term {
+	for steps := 0; steps < 64; steps++ {
+		t := arr
+		if len(arr.Args) == 0 {
+			if d, ok := c.defs[arr.Op]; ok {
+				t = d
+			} else if rc, ok := c.rowCopies[arr.Op]; ok && depth < 6 {
+				it := typesInt
+				in := mkAnd(c.cmp(tokLEQ, rc.dpos, i, it), c.cmp(tokLSS, i, c.binop(tokADD, rc.dpos, rc.n, it), it))
+				si := c.binop(tokADD, rc.spos, c.binop(tokSUB, i, rc.dpos, it), it)
+				return mkIte(in, c.selDepth(rc.src, si, depth+1), c.selDepth(rc.dst, i, depth+1))
+			}
+		}
+		switch t.Op {
+		case "store":
+			si := t.Args[1]
+			if termEq(si, i) {
+				return t.Args[2]
+			}
+			if si.Val != nil && i.Val != nil && si.Val.Cmp(i.Val) != 0 {
+				arr = t.Args[0]
+				continue
+			}
+			// distinct constant offsets from the same symbolic base: (bvadd x c1) vs (bvadd x c2)
+			if distinctOffsets(si, i) {
+				arr = t.Args[0]
+				continue
+			}
+			if depth < 4 && arr.Sort.Idx == sortInt {
+				// heap level: case split on the address
+				return mkIte(mkEq(si, i), t.Args[2], c.selDepth(t.Args[0], i, depth+1))
+			}
+		case "ite":
+			if depth < 5 {
+				return mkIte(t.Args[0], c.selDepth(t.Args[1], i, depth+1), c.selDepth(t.Args[2], i, depth+1))
+			}
+		}
+		break
+	}
+	return mkSelect(arr, i)
+}
+
+// distinctOffsets: a and b are base+c1 and base+c2 with the same base and different constants.
+func distinctOffsets(a, b *Term) bool {
+	split := func(t *Term) (*Term, *Term) {
+		if (t.Op == "bvadd" || t.Op == "+") && len(t.Args) == 2 && t.Args[1].Val != nil {
+			return t.Args[0], t.Args[1]
+		}
+		return t, nil
+	}
+	ab, ac := split(a)
+	bb, bc := split(b)
+	if !termEq(ab, bb) {
+		return false
+	}
+	if ac == nil && bc == nil {
+		return false
+	}
+	var av, bv int64
+	if ac != nil {
+		if !ac.Val.IsInt64() {
+			return false
+		}
+		av = ac.Val.Int64()
+	}
+	if bc != nil {
+		if !bc.Val.IsInt64() {
+			return false
+		}
+		bv = bc.Val.Int64()
+	}
+	return av != bv && av < 1<<32 && bv < 1<<32 && av >= 0 && bv >= 0
 }
